@@ -22,7 +22,7 @@ KINDS = ['add', 'add', 'add', 'add_from', 'path', 'star', 'cycle', 'node', 'reje
 
 
 def strategy(tier):
-    return gen.tiered(tier, max_ops=12, min_ops=2, kinds=KINDS, removal=(True, True, False))
+    return gen.tiered(tier, max_ops=12, min_ops=2, kinds=KINDS, removal=(True, True, False), attrs='handles')
 
 
 def check_nodes(rec, sub, G, M, ctx):
